@@ -170,6 +170,15 @@ struct PkRun {
     hm_set(data, f, v & maxv); g_stats.inc(std::string("fault.field.") + f.tag);
   }
 
+  // absolute addressing of the same damage (header sweeps): field index fi, value kind fv
+  static void field_fault_at(std::vector<uint8_t> &data, const std::vector<HdrField> &fields, uint64_t fi, uint64_t fv, uint64_t fb) {
+    if (fields.empty()) return; const HdrField &f = fields[(size_t)(fi % fields.size())];
+    uint64_t cur = hm_get(data, f), maxv = f.width >= 64 ? ~0ull : ((1ull << f.width) - 1), v;
+    switch (fv % 10) { case 0: v = 0; break; case 1: v = maxv; break; case 2: v = maxv - 1; break; case 3: v = 1; break; case 4: v = cur + 1; break; case 5: v = cur - 1; break; case 6: v = 1ull << (f.width - 1); break;
+      case 7: { size_t j = (size_t)(fi % fields.size()); size_t k = j; for (size_t d = 1; d < fields.size(); d++) { size_t c = (j + fields.size() - d) % fields.size(); if (!strcmp(fields[c].tag, f.tag)) { k = c; break; } } v = hm_get(data, fields[k]); break; }   // duplicate of the previous sibling
+      case 8: v = cur ^ (1ull << (fb % (uint64_t)f.width)); break; default: { uint64_t x = fb * 0x9e3779b97f4a7c15ull + fi; v = splitmix64(x); } }
+    hm_set(data, f, v & maxv); g_stats.inc(std::string("fault.field.") + f.tag);
+  }
   void mutate(std::vector<uint8_t> &data, const Rec &f, const std::vector<Pkt> *otherhdr, const std::vector<Pkt> *otheraudio) {
     std::string k = f.s("fault"); if (k.empty()) return; int64_t a = f.i("a"); uint64_t b = f.u("b"); size_t n = data.size();
     if (k == "trunc") { data.resize(n ? (size_t)((uint64_t)a % n) : 0); g_stats.inc("fault.pkt.truncate"); }
@@ -284,9 +293,47 @@ struct PkRun {
     if (prop == "C02") check(lr.peak_bytes <= budget && lr.max_request <= budget, "ledger", "heap-budget-exceeded", fmt("peak %zu bytes, largest request %zu, budget %zu (header bytes %zu)", lr.peak_bytes, lr.max_request, budget, hdr_bytes));
   }
 
+  // header sweep (C02): every listed (header, field, boundary value) variant is presented to a fresh decoder, followed by init, a few
+  // audio packets and the clear calls.  One "var" record = one variant; a run lists a contiguous slice of a header's fields x all value kinds.
+  void run_hdrsweep() {
+    auto links = plan.all("link"); if (links.empty()) return; auto l = get_link(Recipe::from(*links[0])); if (!l->ok) return;
+    const Rec *cfg = plan.first("cfg"); int poison_mode = cfg ? (int)cfg->i("poison", 4) : 4; uint64_t pseed = cfg ? cfg->u("pseed", 1) : 1;
+    h.str(l->r.key());
+    std::vector<HdrField> maps[3] = {map_id_header(l->hdr[0].data), map_comment_header(l->hdr[1].data), map_setup_header(l->hdr[2].data, l->r.ch)};
+    simalloc_begin(pseed, poison_mode);
+    struct Objs { vorbis_info vi; vorbis_comment vc; vorbis_dsp_state vd; vorbis_block vb; };
+    Objs *o = (Objs *)new unsigned char[sizeof(Objs)];
+    int vi_ = 0;
+    for (auto *v : plan.all("var")) {
+      { Prng pr(pseed ^ (uint64_t)vi_); unsigned char *m = (unsigned char *)o; for (size_t i = 0; i < sizeof(Objs); i++) m[i] = poison_mode == 0 ? 0 : poison_mode == 1 ? 0xFF : poison_mode == 2 ? 0xAA : (unsigned char)pr.next(); }
+      g_sim.cur_op = vi_++; g_sim.cur_op_name = "var"; stack_scribble(poison_mode, pseed + (uint64_t)vi_); watchdog_rearm();
+      int hsel = (int)(v->u("h", 2) % 3); std::vector<uint8_t> hd[3] = {l->hdr[0].data, l->hdr[1].data, l->hdr[2].data};
+      field_fault_at(hd[hsel], maps[hsel], v->u("fi"), v->u("fv"), v->u("fb")); nontrivial = true; g_stats.inc("probe.header_variants");
+      vorbis_info_init(&o->vi); vorbis_comment_init(&o->vc); int ok = 0;
+      for (int i = 0; i < 3; i++) { ogg_packet p; p.packet = hd[i].data(); p.bytes = (long)hd[i].size(); p.b_o_s = i == 0; p.e_o_s = 0; p.granulepos = 0; p.packetno = i; sim_tick("packet");
+        int r = vorbis_synthesis_headerin(&o->vi, &o->vc, &p); h.i64(r); check(r == 0 || documented_code(r), "headerin", "undocumented-return", fmt("ret=%d", r)); if (r) break; ok++; }
+      if (ok == 3) { g_stats.inc("probe.header_variant_accepted");
+        int r = vorbis_synthesis_init(&o->vd, &o->vi); h.i64(r);
+        if (r == 0) { vorbis_block_init(&o->vd, &o->vb); int nch = o->vi.channels; size_t np = std::min<size_t>(l->audio.size(), (size_t)v->i("np", 8));
+          for (size_t j = 0; j < np; j++) { ogg_packet p = pkt_to_op(l->audio[j]); sim_tick("packet"); int sr = vorbis_synthesis(&o->vb, &p); h.i64(sr); check(sr == 0 || documented_code(sr), "synthesis", "undocumented-return", fmt("ret=%d", sr));
+            if (sr == 0) vorbis_synthesis_blockin(&o->vd, &o->vb);
+            float **pcm; int n, guard = 0; while ((n = vorbis_synthesis_pcmout(&o->vd, &pcm)) > 0 && guard++ < 8) { check(n <= 8192 * 2, "pcmout", "more-samples-than-a-block-can-hold", fmt("n=%d", n)); for (int c = 0; c < nch; c++) h.f32s(pcm[c], (size_t)n); vorbis_synthesis_read(&o->vd, n); } }
+          vorbis_block_clear(&o->vb); vorbis_dsp_clear(&o->vd); g_stats.inc("probe.header_variant_decoded"); }
+      } else g_stats.inc("probe.header_rejected");
+      vorbis_comment_clear(&o->vc); vorbis_info_clear(&o->vi);
+      LedgerReport pk = simalloc_peek();
+      check(pk.live_blocks == 0, "ledger", "leak", fmt("header variant h=%d fi=%llu fv=%llu: %zu blocks / %zu bytes still allocated after the clear calls; first: %s", hsel, (unsigned long long)v->u("fi"), (unsigned long long)v->u("fv"), pk.live_blocks, pk.live_bytes, pk.first_leak.c_str()), {{"after_reject", ok == 3 ? "0" : "1"}});
+    }
+    delete[] (unsigned char *)o;
+    LedgerReport lr = simalloc_end(); g_stats.max("max.peak_heap_bytes", lr.peak_bytes);
+    check(lr.foreign_free == 0, "ledger", "foreign-or-double-free", fmt("%d frees of blocks not in the ledger", lr.foreign_free));
+    size_t budget = (size_t)96 * 1024 * 1024 + 4096 * (l->hdr[2].data.size() + 65536);
+    if (prop == "C02") check(lr.peak_bytes <= budget && lr.max_request <= budget, "ledger", "heap-budget-exceeded", fmt("peak %zu bytes, largest request %zu, budget %zu", lr.peak_bytes, lr.max_request, budget));
+  }
+
   void run() {
     const Rec *meta = plan.first("meta"); prop = meta ? meta->s("prop", "C11") : "C11"; mode = meta ? meta->s("mode", "local") : "local";
-    if (mode == "local") run_local(); else run_chaos();
+    if (mode == "local") run_local(); else if (mode == "hdrsweep") run_hdrsweep(); else run_chaos();
   }
 };
 
@@ -327,6 +374,14 @@ struct PkGen {
         int ne = (int)g.range(3, 10); int64_t id = 0;
         for (int e = 0; e < ne; e++) { int nf = (int)g.range(2, 5); int dmax = (int)g.below((uint64_t)P); for (int f = 0; f < nf; f++) { Rec &x = p.add("exp"); x.set("id", id).set("kind", kinds[g.below(10)]).set("d", (int64_t)std::max(0, dmax - (int)g.below(6))).set("a", (int64_t)(g.next() >> 24)).setu("b", g.next() % 100000); } id++; }
       }
+      return p;
+    }
+    if (g.chance(c.prop == "C02" ? 0.35 : 0.15)) {   // header sweep: a contiguous slice of one header's fields x every value kind
+      p.recs[0].set("mode", "hdrsweep"); p.add("cfg").set("poison", (int64_t)g.below(5)).setu("pseed", g.next() % 100000);
+      int hsel = g.chance(0.8) ? 2 : (int)g.below(2); auto ll = get_link(r);
+      size_t nf = hsel == 0 ? map_id_header(ll->hdr[0].data).size() : hsel == 1 ? map_comment_header(ll->hdr[1].data).size() : map_setup_header(ll->hdr[2].data, r.ch).size();
+      size_t slice = thorough ? 120 : 40; size_t first = nf > slice ? (size_t)g.below(nf - slice + 1) : 0; uint64_t fb = g.next() % 100000;
+      for (size_t fi = first; fi < std::min(nf, first + slice); fi++) for (int fv = 0; fv < 10; fv++) p.add("var").set("h", hsel).setu("fi", fi).set("fv", fv).setu("fb", fb);
       return p;
     }
     // chaos
@@ -372,7 +427,7 @@ struct PkEngine : Engine {
   const char *name() const override { return "pktsim"; }
   Plan gen(const GenCfg &c) override { PkGen G(c); return G.make(); }
   void prepare(const Plan &p) override { for (auto *lr : p.all("link")) get_link(Recipe::from(*lr)); }
-  std::vector<std::string> droppable() const override { return {"exp", "op"}; }
+  std::vector<std::string> droppable() const override { return {"exp", "op", "var"}; }
   bool valid(const Plan &p) override { return p.count("link") >= 1; }
   std::vector<Plan> simplify(const Plan &p) override {
     std::vector<Plan> out;
